@@ -257,6 +257,9 @@ package keeper
 //@   flag noframe
 //@   flag pure=ChainIDWithoutRevision,GetOperatorAddressForChainIDAndConsAddr,NewInt
 //@   flag havoc=operatorKeeper.SlashWithInfractionReason,OperatorKeeper.SlashWithInfractionReason,Keeper).SlashWithInfractionReason
+// C07 (a consensus address that was in the validator set stays slashable until its unbonding has ended): whatever the
+// address resolves to an operator for is slashed - being in the CURRENT validator set is not required.
+//@   ensures[C07.dswir.resolvable,C04.dswir.resolvable] res_GetOperatorAddressForChainIDAndConsAddr_0 ==> defined(res_SlashWithInfractionReason_0)
 //@   before[C04.dswir.through] SlashWithInfractionReason requires res_GetOperatorAddressForChainIDAndConsAddr_0 &&
 //@        arg2 == res_GetOperatorAddressForChainIDAndConsAddr_1 && arg3 == infractionHeight && arg4 == power && arg5 == slashFactor && arg6 == infraction
 
@@ -299,3 +302,11 @@ package keeper
 //@   flag noframe
 //@   flag havoc=SlashWithInfractionReason
 //@   before[C04.dslash.through] SlashWithInfractionReason requires arg_addr == addr && arg_infractionHeight == infractionHeight && arg_power == power && arg_slashFactor == slashFactor
+
+// C06 (the updates are computed against the WHOLE previous validator set): the previous set handed to the diff is every
+// stored validator - as many entries as the store holds under the validator prefix.
+//@ func (Keeper).GetAllExocoreValidators
+//@   before[C06.gaev.prefix] KVStorePrefixIterator requires arg_prefix == bytelit(g("x/dogfood/types.ExocoreValidatorBytePrefix"))
+//@   ensures[C06.gaev.all] len(validators) == it_n && state(ctx) == old(state(ctx))
+//@ loop #1
+//@   invariant[C06.gaev.all] 0 <= it_idx && it_idx <= it_n && len(validators) == it_idx && state(ctx) == old(state(ctx))
